@@ -1223,8 +1223,8 @@ CONFIG["C07"] = dict(
     level_note=_RESP_TRUST + "The general life-cycle statement (every service, interface, start time) is kept as "
                "`probe_lifecycle_full : Prop`; proved are its general building blocks and the exhaustive-jitter instances.",
     partial=["probe_lifecycle_full (arbitrary service data, interface and start time) is not proved as one theorem; proved: "
-             "probe_timeline, probe_query_content, registration_probes_every_record, new_probe_starts_at_jitter, "
-             "announcement_needs_active, announced_records_active and the evaluated instances (probe_lifecycle_partial)",
+             "probe_timeline, probe_query_content, registration_probes_every_record, registration_probe_times, "
+             "probe_end_activates_records, announcement_needs_active, announced_records_active and the evaluated instances (probe_lifecycle_partial); missing: their composition through iter for a symbolic service",
              "the history invariant 'an active record was in the authority section of three probe queries 250 ms apart' is "
              "false of the code without a timely scheduler and for shared probes (findings D31, D33, D34): proved instead is "
              "active_only_after_probe (the probe is at least 750 ms old)",
